@@ -88,6 +88,11 @@ CHECKS = {
    technique="runtime monitor: metamorphic differential (same call on two encodings of the same operand values, value-level result signatures compared) over ~150 operation variants, plus a cohort-enumeration oracle for Canonical",
    text="Every exported arithmetic (6 modes), comparison, elementary, rounding, conversion, formatting and encoding operation is executed on an operand set and on alternative cohort members (random and extreme) of the same values; class, sign and value of all results (numerals read by the harness for texts) must agree. Canonical is judged for value/sign preservation, idempotence, identical bits iff equal value and sign, exponent closest to zero by cohort enumeration, and the NaN/Inf/zero normal forms. Exploration.",
    ref="DESIGN.md §5 C19"),
+ "C20": dict(
+   technique="runtime monitoring with sanitizers: Go race detector (implies checkptr), -asan and -d=checkptr builds of the same workload; panic / documented-panic monitor, input-snapshot and retained-output monitors, package-state monitor, per-call watchdog (bounded progress), sequential-vs-concurrent result-table comparison, exported-API coverage cross-check",
+   text="Every exported entry point (cross-checked against the identifiers exported by the tree under test) is called with hostile arguments: arbitrary bit patterns, strings and byte slices up to 100 kB, precisions/widths up to 100000 and 30-digit numbers in spec strings, int extremes for dp/exp, every RoundingMode byte, 0..4096-byte Compose coefficients, all Scan verbs; panics must occur exactly in the documented cases, inputs stay byte-identical, previously returned strings/slices stay unchanged, DefaultRoundingMode and the package constants stay unchanged, and every call returns within the watchdog bound. A shared table of operand records x ~140 operations is then executed by 16 and 64 goroutines in different permutations with Gosched under GOMAXPROCS 16 and 4 and every result compared bit for bit with the sequential table; the whole workload is repeated in race-detector, ASan and checkptr builds whose reports the runner counts (gate: zero). Exploration over the schedules that occurred; termination is restated as bounded progress.",
+   ref="DESIGN.md §5 C20",
+   note="Trusted base: Go toolchain, race detector / ASan / checkptr instrumentation, the harness. A clean race-detector run covers only the interleavings that happened; evidence lists calls, overlapping calls and configurations observed."),
 }
 
 PENDING = "monitor for this property is not built yet in this revision (work in progress; see DESIGN.md §5 for the planned monitor)"
